@@ -34,7 +34,8 @@ from pytools.py_codegen import (  # It's the same code. So sue me.
 from dagrt.codegen.codegen_base import StructuredCodeGenerator
 from dagrt.codegen.expressions import FortranExpressionMapper
 from dagrt.codegen.utils import (
-    KeyToUniqueNameMap, make_identifier_from_name, wrap_line_base)
+    KeyToUniqueNameMap, make_function_identifier_from_name,
+    make_identifier_from_name, wrap_line_base)
 from dagrt.data import UserType
 from dagrt.utils import is_state_variable
 
@@ -91,7 +92,9 @@ class FortranNameManager:
         self.global_map = KeyToUniqueNameMap(start={
                 "<t>": "dagrt_t", "<dt>": "dagrt_dt"},
                 name_generator=self.name_generator)
-        self.function_map = KeyToUniqueNameMap(name_generator=self.name_generator)
+        self.function_map = KeyToUniqueNameMap(
+                name_generator=self.name_generator,
+                key_translate_func=make_function_identifier_from_name)
 
     def name_global(self, var):
         """Return the identifier for a global variable."""
